@@ -291,6 +291,22 @@ def build():
     defs.append(("ms_retry_cap_ms", "N -> N", "fun retries => (if %s then %d * 1000 else N.shiftl %d retries * 1000)%%N" % (cmp_fn(m.group(1), "retries", "%d" % num(m.group(2))), num(m.group(3)), num(m.group(4)))))
     one(r"let\s+rnd:\s*f64\s*=\s*random\(\);\s*let\s+to_usecs\s*=\s*to_usecs\s+as\s+f64\s*\*\s*rnd;", rt_, "retry_time random factor in [0,1)")
 
+    # ---- multi_stream Request: one response-timeout budget per request
+    mreq = fn_body(ms, "get_response", after="impl<Req: ComposeRequest + Clone + 'static> Request<Req>")
+    mnew = fn_body(ms, "new", after="impl<Req> Request<Req>")
+    one(r"start:\s*Instant::now\(\),", mnew, "multi_stream Request::new starts the clock")
+    defs.append(("ms_start_fixed", "bool", "true" if len(re.findall(r"self\.start\s*=", mreq)) == 0 else "false"))
+    m = one(r"let\s+elapsed\s*=\s*self\.start\.elapsed\(\);\s*if\s+elapsed\s*" + OP + r"\s*self\.conn\.response_timeout\s*\{\s*return\s+Err\(Error::StreamReadTimeout\);\s*\}\s*let\s+remaining\s*=\s*self\.conn\.response_timeout\s*-\s*elapsed;", mreq,
+            "multi_stream Request budget test")
+    defs.append(("ms_budget_spent", "N -> N -> bool", "fun elapsed timeout => " + cmp_fn(m.group(1), "elapsed", "timeout")))
+    awaits = len(re.findall(r"\.await", mreq))
+    guarded = len(re.findall(r"timeout\(\s*remaining\s*,", mreq))
+    defs.append(("ms_all_awaits_bounded", "bool", "true" if awaits == guarded == 4 else "false"))
+    m = one(r"Err\(Error::ConnectionClosed\)\s*=>\s*\{\s*self\.delayed_retry_count\s*\+=\s*1;\s*if\s+self\.delayed_retry_count\s*==\s*" + NUMBER + r"\s*\{\s*self\.state\s*=\s*QueryState::RequestConn;\s*\}\s*else\s*\{", mreq,
+            "multi_stream immediate retry after the first ConnectionClosed")
+    defs.append(("ms_immediate_retry_at", "N", "%d%%N" % num(m.group(1))))
+    one(r"Err\(Error::WrongReplyForQuery\)\s*=>\s*\{\s*return\s+Err\(Error::WrongReplyForQuery\);\s*\}", mreq, "multi_stream returns WrongReplyForQuery")
+
     # ---- redundant: which results are returned at once, which are deferred
     rd = strip_comments(read("src/net/client/redundant.rs"))
     gr_ = fn_body(rd, "get_response", after="impl<Req: Clone + Send + Sync + 'static> Query<Req>")
@@ -311,6 +327,34 @@ def build():
     one(r"if\s+!config\.defer_refused\s*&&\s*!config\.defer_servfail\s*\{\s*return\s+false;\s*\}", sk, "redundant skip short cut")
     one(r"if\s+let\s+OptRcode::REFUSED\s*=\s*opt_rcode\s*\{\s*if\s+config\.defer_refused\s*\{\s*return\s+true;\s*\}\s*\}\s*if\s+let\s+OptRcode::SERVFAIL\s*=\s*opt_rcode\s*\{\s*if\s+config\.defer_servfail\s*\{\s*return\s+true;\s*\}\s*\}\s*false", sk, "redundant skip")
     defs.append(("red_skip", "bool -> bool -> N -> bool", "fun defer_refused defer_servfail rcode => orb (andb defer_refused (rcode =? 5)%N) (andb defer_servfail (rcode =? 2)%N)"))
+
+    # ---- load_balancer: the locally generated SERVFAIL and the burst gate
+    lb = strip_comments(read("src/net/client/load_balancer.rs"))
+    sf = fn_body(lb, "serve_fail")
+    copied = len(re.findall(r"\*target\.header_mut\(\)\s*=\s*msg\.header\(\);", sf)) == 1
+    id_set = len(re.findall(r"\.set_id\(\s*(?:msg\.header\(\)|request_header|source\.header\(\))\.id\(\)\s*\)", sf)) >= 1
+    defs.append(("lb_local_id", "N -> N", "fun rid => rid" if (copied or id_set) else "fun _ => 0%N"))
+    if copied and not re.search(r"set_qr\(", sf):
+        defs.append(("lb_local_qr", "bool -> bool", "fun rqr => rqr"))
+    elif re.search(r"set_qr\(\s*true\s*\)", sf):
+        defs.append(("lb_local_qr", "bool -> bool", "fun _ => true"))
+    elif not copied and not re.search(r"set_qr\(", sf):
+        defs.append(("lb_local_qr", "bool -> bool", "fun _ => false"))
+    else:
+        raise GenError("serve_fail: cannot tell how the QR bit of the local answer is set")
+    one(r"set_rcode\(Rcode::SERVFAIL\);", sf, "serve_fail RCODE")
+    defs.append(("lb_local_rcode", "N", "2%N"))
+    qcopy = re.search(r"let\s+source\s*=\s*source\.question\(\);\s*let\s+mut\s+target\s*=\s*target\.question\(\);\s*for\s+rr\s+in\s+source\s*\{\s*target\.push\(rr\?\)\.expect\(\"should not fail\"\);\s*\}", sf)
+    defs.append(("lb_local_copies_question", "bool", "true" if qcopy else "false"))
+    ri = fn_body(lb, "request_impl")
+    one(r"if\s+conn_rt\.is_empty\(\)\s*\{\s*return\s+serve_fail\(&request_msg\.to_message\(\)\.unwrap\(\)\);\s*\}", ri, "load_balancer answers locally when no upstream is usable")
+    lrun = fn_body(lb, "run", after="impl<Req: Clone + Send + Sync + 'static> Transport<Req>")
+    m = one(r"if\s+conn_stats\[i\]\.burst\s*" + OP + r"\s*max_burst\s*\{\s*tmp_conn_rt\.swap_remove\(i\);\s*\}", lrun, "load_balancer burst gate")
+    defs.append(("lb_over_burst", "N -> N -> bool", "fun burst max_burst => " + cmp_fn(m.group(1), "burst", "max_burst")))
+    m = one(r"conn_stats\[ind\]\.burst\s*\+=\s*" + NUMBER + r";", lrun, "load_balancer burst count")
+    defs.append(("lb_burst_inc", "N", "%d%%N" % num(m.group(1))))
+    m = one(r"if\s+conn_stats\[i\]\.burst_start\.elapsed\(\)\s*" + OP + r"\s*conn_stats\[i\]\.burst_interval\s*\{\s*conn_stats\[i\]\.burst_start\s*=\s*Instant::now\(\);\s*conn_stats\[i\]\.burst\s*=\s*0;\s*\}", lrun, "load_balancer burst interval reset")
+    defs.append(("lb_interval_over", "N -> N -> bool", "fun elapsed interval => " + cmp_fn(m.group(1), "elapsed", "interval")))
 
     # ---- dgram_stream TC fallback
     ds = strip_comments(read("src/net/client/dgram_stream.rs"))
